@@ -30,7 +30,7 @@ sw_all!(q, q, t, V_LIST_I32_2, 5, 7);
 sw_all!(t, t, t, V_LIST_BOOL_2, 5, 7);
 sw_all!(t, t, t, V_LIST_EMPTY, 5, 7);
 sw_all!(q, q, t, V_LIST_BIN_1, 5, 7);
-sw_all!(t, t, t, V_SET_I8_2, 5, 7);
+sw_all!(q, t, t, V_SET_I8_2, 5, 7);
 sw_all!(q, t, t, V_MAP_I8_BIN, 5, 7);
 sw_all!(t, t, t, V_MAP_EMPTY, 5, 7);
 sw_all!(q, q, t, V_SET_EMPTY_BIN, 5, 7);
